@@ -1684,12 +1684,27 @@ def _result_discr_edges(fn, carry):
     return oks, errs
 
 
+def _bfs_dist(fn, start):
+    """block -> number of edges from `start` (normal edges)"""
+    dist = {start: 0}
+    dq = deque([start])
+    while dq:
+        b = dq.popleft()
+        for x in fn.succ[b]:
+            if x not in dist:
+                dist[x] = dist[b] + 1
+                dq.append(x)
+    return dist
+
+
 def ok_block(fn, call):
     """Block entered when the (awaited) Result of `call` is known to be Ok: the Continue edge of `?`, or the Ok edge of a
     `match` / `if let` / `is_ok()` test on that value.  None when the value is never tested."""
     carry = result_flow(fn, call)
-    for c in fn.calls:
-        if c.name == 'branch' and c.args and op_local(c.args[0]) in carry and c.bb in fn.reachable():
+    # the nearest `?` on the value (after inlining, the value can flow on into the `?` of the former caller)
+    dist = _bfs_dist(fn, call.bb)
+    cands = [c for c in fn.calls if c.name == 'branch' and c.args and op_local(c.args[0]) in carry and c.bb in fn.reachable()]
+    for c in sorted(cands, key=lambda c: dist.get(c.bb, 10 ** 9)):
             sw = c.t['t']
             if sw is None:
                 continue
@@ -1706,9 +1721,12 @@ def ok_block(fn, call):
 
 def err_block(fn, call):
     carry = result_flow(fn, call)
-    for c in fn.calls:
-        if c.name == 'branch' and c.args and op_local(c.args[0]) in carry:
+    dist = _bfs_dist(fn, call.bb)
+    cands = [c for c in fn.calls if c.name == 'branch' and c.args and op_local(c.args[0]) in carry]
+    for c in sorted(cands, key=lambda c: dist.get(c.bb, 10 ** 9)):
             sw = c.t['t']
+            if sw is None:
+                continue
             t = fn.blocks[sw]['t']
             if t['k'] == 'switch':
                 for v, tgt in t['vals']:
